@@ -3,12 +3,15 @@
 // Contracts for the deductive verification in /verif (comment-only; compiled code is unaffected).
 package receiver
 
+// every collaborator the constructor checks for is present (object invariant: proved for the value the constructor returns)
+//@ spec wiredReceiver(h *Handler) bool = h != nil && h.process != nil && h.peers != nil
+
 // the caller's authenticated name as put into the context by the client-info interceptor (C19)
 //@ spec callerName(ctx any) any = ctxval(ctx, tagof("*interceptors.ClientName"))
 //@ spec isPeerName(h *Handler, ctx any) bool = hastype(callerName(ctx), "string") && (exists id uint64 :: id != 0 && id in peersAll(h.peers) && peersAll(h.peers)[id].Name == unbox(callerName(ctx), "string"))
 
 //@ func (*Handler).senderID
-//@ requires h != nil
+//@ requires wiredReceiver(h) && ctx != nil
 //@ requires [peers] forall id uint64 :: id in peersAll(h.peers) ==> peersAll(h.peers)[id] != nil
 //@ requires [uniquenames] forall a uint64, b uint64 :: a != b && a in peersAll(h.peers) && b in peersAll(h.peers) ==> peersAll(h.peers)[a].Name != peersAll(h.peers)[b].Name
 //@ ensures [found] result != 0 ==> hastype(callerName(ctx), "string") && result in peersAll(h.peers) && peersAll(h.peers)[result].Name == unbox(callerName(ctx), "string")
@@ -17,7 +20,7 @@ package receiver
 //@ invariant [nomatch] forall k uint64 :: visited()[k] && k != 0 ==> peersAll(h.peers)[k].Name != unbox(callerName(ctx), "string")
 
 //@ func (*Handler).Abort
-//@ requires h != nil && req != nil
+//@ requires wiredReceiver(h) && req != nil && ctx != nil
 //@ requires [peers] forall id uint64 :: id in peersAll(h.peers) ==> peersAll(h.peers)[id] != nil
 //@ requires [uniquenames] forall a uint64, b uint64 :: a != b && a in peersAll(h.peers) && b in peersAll(h.peers) ==> peersAll(h.peers)[a].Name != peersAll(h.peers)[b].Name
 //@ modifies procstate
@@ -25,7 +28,7 @@ package receiver
 //@ ensures [refused] !isPeerName(h, ctx) ==> result1 != nil && procstate == old(procstate)
 
 //@ func (*Handler).Execute
-//@ requires h != nil && req != nil
+//@ requires wiredReceiver(h) && req != nil && ctx != nil
 //@ requires [peers] forall id uint64 :: id in peersAll(h.peers) ==> peersAll(h.peers)[id] != nil
 //@ requires [uniquenames] forall a uint64, b uint64 :: a != b && a in peersAll(h.peers) && b in peersAll(h.peers) ==> peersAll(h.peers)[a].Name != peersAll(h.peers)[b].Name
 //@ modifies procstate
@@ -33,7 +36,7 @@ package receiver
 //@ ensures [refused] !isPeerName(h, ctx) ==> result1 != nil && procstate == old(procstate)
 
 //@ func (*Handler).Commit
-//@ requires h != nil && req != nil
+//@ requires wiredReceiver(h) && req != nil && ctx != nil
 //@ requires [peers] forall id uint64 :: id in peersAll(h.peers) ==> peersAll(h.peers)[id] != nil
 //@ requires [uniquenames] forall a uint64, b uint64 :: a != b && a in peersAll(h.peers) && b in peersAll(h.peers) ==> peersAll(h.peers)[a].Name != peersAll(h.peers)[b].Name
 //@ modifies procstate
@@ -41,7 +44,7 @@ package receiver
 //@ ensures [refused] !isPeerName(h, ctx) ==> result1 != nil && procstate == old(procstate)
 
 //@ func (*Handler).Prepare
-//@ requires h != nil && req != nil
+//@ requires wiredReceiver(h) && req != nil && ctx != nil
 //@ requires [peers] forall id uint64 :: id in peersAll(h.peers) ==> peersAll(h.peers)[id] != nil
 //@ requires [uniquenames] forall a uint64, b uint64 :: a != b && a in peersAll(h.peers) && b in peersAll(h.peers) ==> peersAll(h.peers)[a].Name != peersAll(h.peers)[b].Name
 //@ modifies procstate
@@ -51,7 +54,7 @@ package receiver
 //@ invariant [range] 0 <= _n && _n <= len(req.Participants) && len(participants) == len(req.Participants) && fresh(participants)
 
 //@ func (*Handler).Contribute
-//@ requires h != nil && req != nil
+//@ requires wiredReceiver(h) && req != nil && ctx != nil
 //@ requires [peers] forall id uint64 :: id in peersAll(h.peers) ==> peersAll(h.peers)[id] != nil
 //@ requires [uniquenames] forall a uint64, b uint64 :: a != b && a in peersAll(h.peers) && b in peersAll(h.peers) ==> peersAll(h.peers)[a].Name != peersAll(h.peers)[b].Name
 //@ modifies procstate
